@@ -692,7 +692,7 @@ func runC15(e *Env) {
 	e.Stats.Rule = "case = history of real erc20 messages through the app's message router on a branch of one app (RegisterCoin with bank supply/metadata set up, RegisterERC20 of deployed ERC20MinterBurnerDecimals contracts, repeats and cross-registrations, toggles by denomination and by five spellings of the address, self-destruct (statedb.Suicide) followed by ConvertCoin/ConvertERC20 -> removal, UpdateParams, genesis export/JSON/validate/import into an emptied store); streams: random structured histories, scripted boundary histories (one per guard of the model), malformed (authority, junk tokens/addresses); after every operation: the three raw store tables, the TokenPairs listing, lookups of every token string and id seen so far (keeper and TokenPair query), result class; non-trivial = at least one accepted registration plus one accepted toggle or removal; distinct by hash of the (kind, result, table sizes) sequence"
 	e.ShardSize = 10 // cases are large; more, smaller shards evaluate in parallel
 	w := c15NewWorld()
-	shadowOn := os.Getenv("VERIF_C15_SHADOW") == "1"
+	shadowOn := os.Getenv("VERIF_C15_SHADOW") != "0" // on by default: the residual finding is listed in known_findings.txt
 	var cases []c15Case
 	if e.Replay != nil {
 		var kase c15Case
